@@ -136,6 +136,7 @@ type ceEnv struct {
 	chosen map[*ssa.Phi]ssa.Value
 	cells  map[*ssa.Alloc]ssa.Value // path-sensitive contents of local cells
 	loads  map[*ssa.UnOp]ssa.Value  // value a load of a local cell saw on this path
+	bounds map[ssa.Value][2]*int64  // path refinement: [lo, hi] learnt from branches taken on unknown integers
 	depth  int
 	budget *int
 	memo   map[*ssa.Call][]av
@@ -389,6 +390,55 @@ func (e *ceEnv) evalBin(x *ssa.BinOp) av {
 		return avUnknown()
 	}
 	a, b := e.eval(x.X), e.eval(x.Y)
+	// path refinement: an unknown integer with learnt bounds against a constant
+	if len(e.bounds) > 0 {
+		decide := func(v ssa.Value, k int64, left bool) (tri, bool) {
+			bd, ok := e.bounds[v]
+			if !ok {
+				return triUnknown, false
+			}
+			lo, hi := int64(-1)<<50, int64(1)<<50
+			if bd[0] != nil {
+				lo = *bd[0]
+			}
+			if bd[1] != nil {
+				hi = *bd[1]
+			}
+			var v0, v1 bool
+			if left {
+				v0, v1 = cmpInt(x.Op, lo, k), cmpInt(x.Op, hi, k)
+			} else {
+				v0, v1 = cmpInt(x.Op, k, lo), cmpInt(x.Op, k, hi)
+			}
+			switch x.Op {
+			case token.EQL, token.NEQ:
+				if k < lo || k > hi {
+					if x.Op == token.EQL {
+						return triFalse, true
+					}
+					return triTrue, true
+				}
+				return triUnknown, false
+			}
+			if v0 == v1 {
+				if v0 {
+					return triTrue, true
+				}
+				return triFalse, true
+			}
+			return triUnknown, false
+		}
+		if b.isInt && b.c != nil && !(a.isInt && a.c != nil) {
+			if t, ok := decide(x.X, *b.c, true); ok {
+				return avBool(t)
+			}
+		}
+		if a.isInt && a.c != nil && !(b.isInt && b.c != nil) {
+			if t, ok := decide(x.Y, *a.c, false); ok {
+				return avBool(t)
+			}
+		}
+	}
 	// nil comparisons
 	isNilConst := func(v ssa.Value) bool { k, ok := v.(*ssa.Const); return ok && k.IsNil() }
 	if (x.Op == token.EQL || x.Op == token.NEQ) && (isNilConst(x.X) || isNilConst(x.Y)) {
@@ -755,10 +805,14 @@ func (e *ceEnv) run(fn *ssa.Function) (rets [][]av, complete bool) {
 		case *ssa.If:
 			c := e.eval(t.Cond)
 			if c.b != triFalse {
+				undo := e.refine(t.Cond, true)
 				walk(b.Succs[0], b)
+				undo()
 			}
 			if c.b != triTrue {
+				undo := e.refine(t.Cond, false)
 				walk(b.Succs[1], b)
+				undo()
 			}
 		case *ssa.Panic:
 		default:
@@ -792,4 +846,86 @@ func (e *ceEnv) evalResult(v ssa.Value) av {
 		}
 	}
 	return e.eval(v)
+}
+
+// refine records, for the branch taken, what a comparison of an unknown integer with a constant
+// says about that integer (interval bounds keyed by the SSA value); returns the undo function.
+func (e *ceEnv) refine(cond ssa.Value, truth bool) func() {
+	bin, ok := cond.(*ssa.BinOp)
+	if !ok {
+		return func() {}
+	}
+	var v ssa.Value
+	var k int64
+	op := bin.Op
+	a, b := e.eval(bin.X), e.eval(bin.Y)
+	switch {
+	case b.isInt && b.c != nil && !(a.isInt && a.c != nil):
+		v, k = bin.X, *b.c
+	case a.isInt && a.c != nil && !(b.isInt && b.c != nil):
+		v, k = bin.Y, *a.c
+		// mirror the operator:  k op v  <=>  v op' k
+		switch op {
+		case token.LSS:
+			op = token.GTR
+		case token.LEQ:
+			op = token.GEQ
+		case token.GTR:
+			op = token.LSS
+		case token.GEQ:
+			op = token.LEQ
+		}
+	default:
+		return func() {}
+	}
+	if !truth {
+		switch op {
+		case token.LSS:
+			op = token.GEQ
+		case token.LEQ:
+			op = token.GTR
+		case token.GTR:
+			op = token.LEQ
+		case token.GEQ:
+			op = token.LSS
+		case token.EQL:
+			op = token.NEQ
+		case token.NEQ:
+			op = token.EQL
+		}
+	}
+	if e.bounds == nil {
+		e.bounds = map[ssa.Value][2]*int64{}
+	}
+	old, had := e.bounds[v]
+	nb := old
+	set := func(i int, x int64) {
+		if nb[i] == nil || (i == 0 && x > *nb[i]) || (i == 1 && x < *nb[i]) {
+			xx := x
+			nb[i] = &xx
+		}
+	}
+	switch op {
+	case token.LSS:
+		set(1, k-1)
+	case token.LEQ:
+		set(1, k)
+	case token.GTR:
+		set(0, k+1)
+	case token.GEQ:
+		set(0, k)
+	case token.EQL:
+		set(0, k)
+		set(1, k)
+	default:
+		return func() {}
+	}
+	e.bounds[v] = nb
+	return func() {
+		if had {
+			e.bounds[v] = old
+		} else {
+			delete(e.bounds, v)
+		}
+	}
 }
